@@ -8,7 +8,7 @@ cd $W
 applies=no; builds=no; suite=no; demo_fails_with=no; demo_passes_without=no
 if git apply --3way "$SRC/patch.diff" 2>/dev/null || git apply "$SRC/patch.diff" 2>/dev/null; then applies=yes; fi
 if [ $applies = yes ]; then
-  git diff > /tmp/confirm-applied.diff
+  git diff HEAD > /tmp/confirm-applied.diff
   go build ./... >/dev/null 2>&1 && builds=yes
   go test -vet=off -count=1 -timeout 25m ./... >/tmp/confirm-suite.log 2>&1 && suite=yes
   cp "$SRC/zz_demo_test.go" .
